@@ -358,7 +358,56 @@ func builderFlow(c *Ctx, g *load.G) {
 	where := func(n ast.Node) string { return g.Where(n.Pos()) }
 
 	// ---- C04-g: the pipeline of BuildParser / buildParser
-	if fd := get("", "BuildParser"); fd != nil {
+	// appliesAll: a loop over the option list that applies every element to recv, unconditionally
+	appliesAll := func(body ast.Node, list, recv string) *ast.RangeStmt {
+		var found *ast.RangeStmt
+		ast.Inspect(body, func(n ast.Node) bool {
+			if rs, ok2 := n.(*ast.RangeStmt); ok2 && rs.Value != nil && nospace(rs.X) == list {
+				for _, ce := range callsIn(rs.Body) {
+					if id, ok3 := ce.Fun.(*ast.Ident); ok3 && id.Name == nospace(rs.Value) && len(ce.Args) == 1 && nospace(ce.Args[0]) == recv && len(guardsOf(rs.Body, ce.Pos())) == 0 {
+						found = rs
+					}
+				}
+			}
+			return true
+		})
+		return found
+	}
+	inlineOptions := false
+	if fd := load.FuncDecl(bp, "", "BuildParser"); fd != nil && fd.Body != nil && load.FuncDecl(bp, "builder", "setOptions") == nil {
+		// the option loop written out in BuildParser itself: top-level statements `for _, opt := range opts { opt(b) }`
+		// and, behind it, `return b.buildParser(g)` with the same b
+		opts := fd.Type.Params.List[len(fd.Type.Params.List)-1].Names[0].Name
+		var bad []string
+		iLoop, iRet, recv := -1, -1, ""
+		for i, st := range fd.Body.List {
+			if rs, ok := st.(*ast.ReturnStmt); ok && len(rs.Results) == 1 {
+				if ce, ok := rs.Results[0].(*ast.CallExpr); ok && callSel(ce) == "buildParser" {
+					if sel, ok := ce.Fun.(*ast.SelectorExpr); ok {
+						iRet, recv = i, nospace(sel.X)
+					}
+				}
+			}
+		}
+		for i, st := range fd.Body.List {
+			if rs, ok := st.(*ast.RangeStmt); ok && recv != "" && appliesAll(rs, opts, recv) == rs {
+				iLoop = i
+			}
+		}
+		if iRet < 0 {
+			bad = append(bad, "the result of buildParser is not returned")
+		} else if iLoop < 0 || iLoop > iRet {
+			bad = append(bad, "the options are not applied (setOptions(opts), or a loop `opt("+recv+")` over every option) before buildParser runs: every Option passed by main is ignored")
+		}
+		for i, st := range fd.Body.List {
+			if _, ok := st.(*ast.ReturnStmt); ok && i < iRet {
+				bad = append(bad, "BuildParser returns before it builds")
+			}
+		}
+		inlineOptions = true
+		r.Check(len(bad) == 0, "C04-g", "G.builder.BuildParser:applies-options-then-builds", "", where(fd), "every option applied to the builder, then return buildParser(g)", strings.Join(bad, "; "))
+	}
+	if fd := get("", "BuildParser"); fd != nil && !inlineOptions {
 		paths := enumPaths(fd.Body)
 		var bad []string
 		if len(paths) != 1 {
@@ -388,18 +437,10 @@ func builderFlow(c *Ctx, g *load.G) {
 		}
 		r.Check(len(bad) == 0, "C04-g", "G.builder.BuildParser:applies-options-then-builds", "", where(fd), "setOptions(opts) then return buildParser(g)", strings.Join(bad, "; "))
 	}
-	if fd := get("builder", "setOptions"); fd != nil {
-		ok := false
-		ast.Inspect(fd.Body, func(n ast.Node) bool {
-			if rs, ok2 := n.(*ast.RangeStmt); ok2 && rs.Value != nil && nospace(rs.X) == firstParam(fd) {
-				for _, ce := range callsIn(rs.Body) {
-					if id, ok3 := ce.Fun.(*ast.Ident); ok3 && id.Name == nospace(rs.Value) && len(ce.Args) == 1 && nospace(ce.Args[0]) == recvName(fd) && len(guardsOf(rs.Body, ce.Pos())) == 0 {
-						ok = true
-					}
-				}
-			}
-			return true
-		})
+	if inlineOptions {
+		// nothing: the loop was checked where it stands
+	} else if fd := get("builder", "setOptions"); fd != nil {
+		ok := appliesAll(fd.Body, firstParam(fd), recvName(fd)) != nil
 		r.Check(ok, "C04-g", "G.builder.setOptions:applies-every-option", "", where(fd), "every option is applied to the receiver", "no unconditional `opt(b)` for every element of the option list")
 	}
 	if fd := get("builder", "buildParser"); fd != nil {
@@ -471,6 +512,16 @@ func builderFlow(c *Ctx, g *load.G) {
 		}
 		b := recvName(fd)
 		f := firstParam(fd)
+		// writeln as a forwarder: its whole body hands the text, followed by a line end, to writef (checked above)
+		if prim.name == "writeln" && len(fd.Body.List) == 1 {
+			if es, ok := fd.Body.List[0].(*ast.ExprStmt); ok {
+				if ce, ok := es.X.(*ast.CallExpr); ok && nospace(ce.Fun) == b+".writef" && len(ce.Args) == 2 && !ce.Ellipsis.IsValid() &&
+					(nospace(ce.Args[0]) == `"%s\n"` || nospace(ce.Args[0]) == "`%s\n`") && nospace(ce.Args[1]) == f {
+					r.Ok("C04-i", "G.builder."+prim.name+":writes-unless-failed", "", where(fd), "forwards its text and a line end to writef, which writes exactly when no earlier write failed and keeps the error")
+					continue
+				}
+			}
+		}
 		paths := enumPaths(fd.Body)
 		var bad []string
 		nWrite := 0
